@@ -15,7 +15,7 @@ from symx import load
 from harness import common
 
 BOUNDS = {
-    "quick": {"metrics": "all valid classes of verif.metric + 6 diagrams asked for csv", "axes": "4 of the 19 -x dimensions per metric (rotating)",
+    "quick": {"metrics": "all valid classes of verif.metric + 6 diagrams asked for csv", "axes": "3 of the 19 -x dimensions per metric (rotating)",
               "dataset": "2 inputs, 2 times x 2 lead times x 2 locations; one location may be entirely missing (thorough: also one time); ordinary / constant forecast / zero observations / perfect forecast",
               "variants": "default, -b below= -r 1, -agg median, -r 1,3 -b within"},
     "thorough": {"metrics": "same", "axes": "all 19", "dataset": "same plus a single-time, single-location dataset", "variants": "same + -agg 0.9, -b above="},
@@ -132,6 +132,46 @@ def h_csv(axes_per_metric, variants, small=False, with_missing_time=True):
     return fn
 
 
+def h_text_variants():
+    """Both text-like writers x conditional / threshold / data axes x bin types x with and without -r,
+    for a few representative metrics (the full cross product is the thorough tier's)."""
+    metrics = ["mae", "obs", "corr", "ets"]
+    axes = ["obs", "fcst", "threshold", "leadtime"]
+    bins = [[], ["-b", "within"], ["-b", "below="], ["-b", "=within="]]
+    rs = [[], ["-r", "1,3"], ["-r", "0,1,2,3"]]
+
+    def fn(S):
+        drv = load.modules["verif.driver"]
+        inp = load.modules["verif.input"]
+        S.allow_realize(True)
+        S.messages_may_format_numbers()
+        name = metrics[S.choose("metric", len(metrics))]
+        axis = axes[S.choose("axis", len(axes))]
+        b = bins[S.choose("bin", len(bins))]
+        r = rs[S.choose("r", len(rs))]
+        fmt = ["text", "csv"][S.choose("format", 2)]
+        ins = build_inputs(S, False, False)
+        files = {"A.txt": ins[0], "B.txt": ins[1]}
+        old = inp.get_input
+        inp.get_input = lambda f: files[f]
+        argv = ["verif", "A.txt", "B.txt", "-m", name, "-x", axis, "-type", fmt] + b + r
+        code, crash = None, None
+        try:
+            try:
+                drv.run(argv)
+            except SystemExit as e:
+                code = e.code if e.code is not None else 0
+            except Exception as e:
+                from symx.explore import _where
+                crash = "%s@%s" % (type(e).__name__, _where(e.__traceback__))
+        finally:
+            inp.get_input = old
+        what = " ".join(argv[3:])
+        S.prove("no-unhandled-exception", crash is None, detail="%s: %s" % (what, crash))
+        S.prove("error-exits-are-non-zero", code is None or code != 0, detail=what)
+    return fn
+
+
 ALL_DIAGRAMS = ["pithist", "obsfcst", "timeseries", "meteo", "qq", "autocorr", "autocov", "fss", "cond", "against", "scatter",
                 "change", "spreadskill", "taylor", "error", "freq", "roc", "droc", "droc0", "reliability", "discrimination",
                 "performance", "invreliability", "murphy", "bsdecomp", "igncontrib", "economicvalue", "marginal"]
@@ -191,8 +231,9 @@ def harnesses(tier):
     variants = [[], ["-b", "below=", "-r", "1"], ["-agg", "median"], ["-r", "1,3", "-b", "within"]]
     if thorough:
         variants += [["-agg", "0.9"], ["-b", "above=", "-r", "2"]]
-    hs = [Harness("driver_csv_text", h_csv(len(AXES) if thorough else 4, variants if thorough else variants[:3], with_missing_time=thorough),
+    hs = [Harness("driver_csv_text", h_csv(len(AXES) if thorough else 3, variants if thorough else variants[:3], with_missing_time=thorough),
                   "every metric x axes x variants x dataset classes through driver.run to csv", path_budget_s=60, max_paths=400000)]
+    hs.append(Harness("driver_text_variants", h_text_variants(), "text and csv writers x obs/fcst/threshold/leadtime axes x bin types x -r", path_budget_s=60))
     pvariants = [[], ["-r", "1,3"], ["-x", "location"]] + ([["-b", "below=", "-r", "1"], ["-x", "time"], ["-q", "0.1,0.9"]] if thorough else [])
     hs.append(Harness("driver_plot", h_plot(len(PLOT_TYPES) if thorough else 3, pvariants, with_missing_time=thorough),
                       "every diagram and output type up to the pyplot boundary (recording stub)", path_budget_s=60, max_paths=400000))
